@@ -20,13 +20,13 @@ oracle(seed, scale)        the property laws on the implementation alone.  Defec
     union-firstmatch-lossy            C14  an earlier dataclass member accepts the payload and drops its extra keys
     union-prim-coercion               C14  Union[str, int]: 5 ↦ "5" (members are tried by CALLING them)
     error-path-lost-through-optional  C16  below an Optional/union field the inner field path is not reported
-    serializer-cycle-recursion        C16  a cycle cattrs walks itself (resolved annotation, Any, dict): RecursionError
-                                           or a copy unrolled to the recursion limit
     serializer-dict-leaks-instance    C16  serialize({"k": node}) leaves forward-referenced children as live instances
     serializer-registry-dependent     C16  keys of an instance held by a dict: python names before / wire names after its
                                            class was registered
   Classes that would be NEW findings: leaf-uuid-unsupported, leaf-time-unsupported (F10, repaired: a conforming document with
-  a uuid.UUID / datetime.time value does not decode, or such a value is not written as a string), roundtrip-lossy, roundtrip-decode-fails, roundtrip-encode-fails,
+  a uuid.UUID / datetime.time value does not decode, or such a value is not written as a string), serializer-cycle-recursion
+  (F26, repaired: a reference cycle that cattrs walks itself - resolved annotation, Any, dict - ends in RecursionError or in a
+  copy unrolled to the recursion limit; the former witness is evaluated on every run, see FORMER_WITNESSES), roundtrip-lossy, roundtrip-decode-fails, roundtrip-encode-fails,
   encode-decode-mismatch, encode-decode-fails, error-path-wrong, error-not-reported, error-not-valueerror,
   union-decode-fails, union-disc-wrong-variant, union-disc-unmapped-guessed, union-disc-retried, serializer-null-key,
   serializer-not-json, serializer-raises.
@@ -1326,7 +1326,8 @@ def impl_serialize(Ser, obj, ids):
     """`MODEL:fuel` = the traversal does not terminate by itself: CPython stops it with RecursionError — or, when
     cattrs happens to swallow that RecursionError while generating a hook, the call returns a copy of the cycle
     unrolled to the depth of the interpreter's recursion limit (seen with limit 600: 196 levels).  The generated
-    graphs are at most ~20 levels deep, so a result nested deeper than 120 levels is such an unrolling."""
+    graphs are at most ~20 levels deep, so a result nested deeper than 120 levels is such an unrolling.
+    (F26, repaired: the model never answers `MODEL:fuel` any more - `C16.serializer_terminates` - so either is a disagreement.)"""
     try:
         out = Ser.serialize(obj)
     except RecursionError:
@@ -1906,9 +1907,16 @@ def _err_path(steps):
     return out
 
 
+# The stored witnesses of REPAIRED serializer findings: evaluated by every oracle run, whatever the seed.
+FORMER_WITNESSES = [
+    # F26: an instance whose `nxt: Optional["K"]` and `anyref: Any` both hold the instance itself
+    json.loads('{"prop": "serializer", "decls": [["Kq0e0_1", {"fields": [{"n": "f", "t": {"opt": "str"}, "d": "none"}, {"n": "nxt", "t": {"opt": {"fwd": "Kq0e0_1"}}, "d": "none"}, {"n": "anyref", "t": "any", "d": "none"}], "load": [["a", "f"], ["Kind", "anyref"], ["\\u00e9", "nxt"]], "dump": [["anyref", "Kind"], ["nxt", "\\u00e9"], ["f", "a"]]}]], "ty": null, "heap": [[0, {"inst": "Kq0e0_1", "f": [["f", "x y"], ["nxt", {"ref": 0}], ["anyref", {"ref": 0}]]}]], "root": {"ref": 0}}'),
+]
+
+
 def oracle(seed: int = 16, scale: float = 1.0) -> dict:
     rng = random.Random(seed * 7919 + 1)
-    cases: list[dict] = []
+    cases: list[dict] = [json.loads(json.dumps(w)) for w in FORMER_WITNESSES]
     plain_feat = {"unions": False, "disc": False, "bad_leaf": 0.0, "meta_modes": ["none", "bij", "bij", "partial"],
                   "none_on_nonopt": 0.0, "canonical": True}
 
